@@ -24,11 +24,13 @@ _NS = 'self.tuple_of_nests'
 # pairwise disjoint nests that do not meet the alternatives left alone
 contract('biogeme.nests.NestsForNestedLogit.check_partition', P, verify=False, modifies=[], returns='tuple[bool, str]',
          ensures={'accepted_means_disjoint':
-                  f"implies(result[0], forall(lambda a: forall(lambda b: implies(a != b, forall(lambda x: not ("
-                  f"x in {_NS}[a].list_of_alternatives and x in {_NS}[b].list_of_alternatives), ty='int')), 0, len({_NS})), 0, len({_NS})))",
+                  f"implies(result[0], forall(lambda a: forall(lambda b: implies(a != b, forall(lambda p: forall(lambda r: "
+                  f"{_NS}[a].list_of_alternatives[p] != {_NS}[b].list_of_alternatives[r], 0, len({_NS}[b].list_of_alternatives)), "
+                  f"0, len({_NS}[a].list_of_alternatives))), 0, len({_NS})), 0, len({_NS})))",
                   'accepted_means_alone_outside_nests':
-                  f"implies(result[0] and self.alone is not None, forall(lambda a: forall(lambda x: not ("
-                  f"x in typed(self.alone, 'set[int]') and x in {_NS}[a].list_of_alternatives), ty='int'), 0, len({_NS})))"},
+                  f"implies(result[0] and self.alone is not None, forall(lambda a: forall(lambda p: "
+                  f"{_NS}[a].list_of_alternatives[p] not in typed(self.alone, 'set[int]'), 0, len({_NS}[a].list_of_alternatives)), "
+                  f"0, len({_NS})))"},
          note='assumed: NestsForNestedLogit.check_partition returns ok only when the nests are pairwise disjoint and disjoint '
               'from `alone` (set comprehensions / set().union(*generator) are outside the engine; bounded stand-in '
               'C05:bounded:nests:accepted-structures-are-partitions-and-alone-is-the-complement)')
@@ -44,8 +46,8 @@ def G(nest: str, alt: str) -> str:
 
 _IN_ALONE = "(nests.alone is not None and x in typed(nests.alone, 'set[int]'))"
 # loop 1 (over the nests), k nests done
-_DOM_K = (f"forall(lambda x: implies({_IN_ALONE}, x in log_gi), ty='int') and "
-          f"forall(lambda q: forall(lambda p: {T}[q].list_of_alternatives[p] in log_gi, 0, len({T}[q].list_of_alternatives)), 0, _k)")
+_DOM_ALONE = f"forall(lambda x: implies({_IN_ALONE}, x in log_gi), ty='int')"
+_DOM_K = f"forall(lambda q: forall(lambda p: {T}[q].list_of_alternatives[p] in log_gi, 0, len({T}[q].list_of_alternatives)), 0, _k)"
 _VAL_K = (f"forall(lambda q: forall(lambda p: c05c_val(log_gi[{T}[q].list_of_alternatives[p]]) == "
           f"{G(T + '[q]', T + '[q].list_of_alternatives[p]')}, 0, len({T}[q].list_of_alternatives)), 0, _k)")
 _ALONE_K = f"forall(lambda x: implies({_IN_ALONE}, c05c_val(log_gi[x]) == 0), ty='int')"
@@ -65,22 +67,28 @@ _REQ = {
 # loops 2 / 3 (over the alternatives of the current nest m = nests[K]; one copy per availability branch), _k alternatives done
 _K = 'c05c_pos(m)'
 _ALTS = 'm.list_of_alternatives'
-_DOM_IN = _DOM_K.replace('_k', _K) + f" and forall(lambda p: {_ALTS}[p] in log_gi, 0, _k)"
-_PREV_IN = _VAL_K.replace('_k', _K)
+_DOM_PREV_IN = _DOM_K.replace('_k', _K)
+_DOM_CUR_IN = f"forall(lambda p: {_ALTS}[p] in log_gi, 0, _k)"
+_NEW_ALT = (f"forall(lambda q: forall(lambda p: {T}[q].list_of_alternatives[p] != {_ALTS}[_k - 1], 0, "
+            f"len({T}[q].list_of_alternatives)), 0, {_K})")
+_PREV_IN = (f"c05c_cut('alternative-just-written-is-in-no-previous-nest', lambda: implies(_k > 0, {_NEW_ALT})) and "
+            + _VAL_K.replace('_k', _K))
 _CUR_IN = f"forall(lambda p: c05c_val(log_gi[{_ALTS}[p]]) == {G('m', _ALTS + '[p]')}, 0, _k)"
 _SUM_IN = f"c05c_val(the_sum) == c05c_nestsum(m, util, {AV})"
 _M_IN = f"0 <= {_K} and {_K} < len({T}) and m is {T}[{_K}]"
-_INNER = {'current_nest': _M_IN, 'inner_sum': _SUM_IN, 'domain': _DOM_IN, 'previous_nests': _PREV_IN, 'current_nest_terms': _CUR_IN,
+_INNER = {'current_nest': _M_IN, 'inner_sum': _SUM_IN, 'domain_alone': _DOM_ALONE, 'domain_previous_nests': _DOM_PREV_IN,
+          'domain_current_nest': _DOM_CUR_IN, 'previous_nests': _PREV_IN, 'current_nest_terms': _CUR_IN,
           'alone_zero': _ALONE_K}
 
 contract(M + 'get_mev_for_nested', P, nla_uf=True,
          types={'util': 'dict[int, Expression]', 'availability': 'dict[int, Expression] | None', 'nests': 'NestsForNestedLogit'},
          requires=_REQ, modifies=[], may_raise=['BiogemeError'],
-         ensures={'domain': _DOM_K.replace('log_gi', 'result').replace('_k', f'len({T})'),
+         ensures={'domain_alone': _DOM_ALONE.replace('log_gi', 'result'),
+                  'domain_nests': _DOM_K.replace('log_gi', 'result').replace('_k', f'len({T})'),
                   'nest_terms': _VAL_K.replace('log_gi', 'result').replace('_k', f'len({T})'),
                   'alone_zero': _ALONE_K.replace('log_gi', 'result')},
-         invariants={1: {'clauses': {'domain': _DOM_K, 'nest_terms': _VAL_K, 'alone_zero': _ALONE_K}},
+         invariants={1: {'clauses': {'domain_alone': _DOM_ALONE, 'domain_nests': _DOM_K, 'nest_terms': _VAL_K, 'alone_zero': _ALONE_K}},
                      # the two ways of starting (alone None / a set) are kept apart: each runs the outer loop (1 / 4) and, per
                      # availability branch, one copy of the inner loop (2, 3 / 5, 6)
-                     4: {'clauses': {'domain': _DOM_K, 'nest_terms': _VAL_K, 'alone_zero': _ALONE_K}},
+                     4: {'clauses': {'domain_alone': _DOM_ALONE, 'domain_nests': _DOM_K, 'nest_terms': _VAL_K, 'alone_zero': _ALONE_K}},
                      **{o: {'clauses': dict(_INNER)} for o in (2, 3, 5, 6)}})
